@@ -33,6 +33,7 @@ import copy
 import hashlib
 import math
 import shutil
+import traceback
 import warnings
 import numpy as np
 import h5py
@@ -704,8 +705,19 @@ def check_state(rec, model, case, nt, light=False):
 
 
 def execute(model0, op, workdir, srcdir, case, variant, via, light=False):
-    """-> (records, new model or None).  model0 is not modified."""
+    """-> (records, new model or None), or None if the operation is outside the quantifier on this state.
+    Never lets an exception escape: whatever a broken operation leaves behind becomes a recorded failure."""
     rec = Rec()
+    try:
+        return _execute(rec, model0, op, workdir, srcdir, case, variant, via, light)
+    except Exception as e:
+        rec.check("files-examined-after-operation", False, dict(case, op=short_op(op), via=via, uri_variant=variant),
+                  f"{type(e).__name__}: {str(e)[:300]}\n{traceback.format_exc(limit=5)}", "no exception", True,
+                  f"files-examined-after-operation:exception:{opname(op)}")
+        return rec.r, None
+
+
+def _execute(rec, model0, op, workdir, srcdir, case, variant, via, light=False):
     model = copy.deepcopy(model0)
     info = apply_op(model, op)
     if info is None:
@@ -804,6 +816,9 @@ def expand_task(task):
         via = "cli" if (k + depth) % 3 == 0 and op["op"] != "create" else "api"
         try:
             r = execute(model, op, wd, sdir, case, variant, via, light)
+        except Exception as e:   # (execute() catches everything itself; belt and braces for the pool)
+            r = ([("files-examined-after-operation", False, dict(case, op=short_op(op)), f"{type(e).__name__}: {e}",
+                   "no exception", True, "files-examined-after-operation:exception:worker")], None)
         finally:
             os.chdir(tmp)
         if r is None:
@@ -825,7 +840,7 @@ def walk_task(task):
     recs = []
     made = []
     try:
-        for step in range(steps):
+        for step in range(steps if steps > 0 else 0):
             ops = candidate_ops(model, depth)
             val = valid_indices(model, depth)
             if not val:
@@ -842,6 +857,9 @@ def walk_task(task):
             if r[1] is None:
                 break
             model, sdir, depth, hist = r[1], wd, depth + 1, hist + [short_op(ops[k])]
+    except Exception as e:
+        recs.append(("files-examined-after-operation", False, dict(history=hist), f"{type(e).__name__}: {e}", "no exception", True,
+                     "files-examined-after-operation:exception:worker"))
     finally:
         os.chdir(tmp)
         for wd in made:
@@ -873,6 +891,17 @@ def main():
     B.rule = ("case = (history of operations, operation, URI variant, API/CLI, checked object [collection read / file listed / "
               "probe path]); every evaluation follows a real operation on real files and is non-trivial; distinct by case")
     B.exhaustive = True
+    try:
+        body(B, full_depth, n_walks)
+    except Exception as e:  # the runner must ALWAYS end with the JSON line
+        B.fail("runner-completed", dict(stage="main"), f"{type(e).__name__}: {str(e)[:300]}\n{traceback.format_exc(limit=6)}",
+               "no exception", "runner-completed:exception")
+    finally:
+        os.chdir(ROOT)
+    return B.finish()
+
+
+def body(B, full_depth, n_walks):
     tmp = B.tmp
     # recognition of things that are not HDF5 files / not collections (no state needed)
     os.chdir(tmp)
@@ -900,15 +929,25 @@ def main():
     os.makedirs(dh)
     os.chdir(dh)
     c = CONTENTS[0]
-    cooler.create_cooler("A.cool::/a", c["bins"], c["pix"], symmetric_upper=c["symm"], ordered=True)
-    before = walk_real("A.cool")
-    for dst in ("B.cool::/x", "B.cool"):
+    try:
+        cooler.create_cooler("A.cool::/a", c["bins"], c["pix"], symmetric_upper=c["symm"], ordered=True)
+        before = walk_real("A.cool")
+        dsts = ("B.cool::/x", "B.cool")
+    except Exception as e:
+        B.check("ln-hard:cross-file-refused", False, dict(op="prepare source"), f"{type(e).__name__}: {e}", "source created", True,
+                "ln-hard:cross-file-refused:exception")
+        dsts = ()
+    for dst in dsts:
         case = dict(op=f"ln-hard A:/a -> {dst}")
         try:
             fileops.ln("A.cool::/a", dst)
             B.check("ln-hard:cross-file-refused", False, case, "no exception", "OSError", True)
         except OSError:
-            B.check("ln-hard:cross-file-refused", walk_real("A.cool") == before, case, "source file changed", "unchanged", True)
+            try:
+                same = walk_real("A.cool") == before
+            except Exception:
+                same = False
+            B.check("ln-hard:cross-file-refused", same, case, "source file changed / unreadable", "unchanged", True)
         except Exception as e:
             B.check("ln-hard:cross-file-refused", False, case, f"{type(e).__name__}: {e}", "OSError", True)
     os.chdir(tmp)
@@ -952,9 +991,7 @@ def main():
     if pool:
         pool.close()
         pool.join()
-    os.chdir(ROOT)
     B.bound += f"; distinct model states per length: {nstates}"
-    return B.finish()
 
 
 def replay(B, recs):
